@@ -250,7 +250,7 @@ pub fn gen_case(seed: u64, k: u64, profile: Profile) -> Case {
         }
         _ => vec![merged],
     };
-    Case { id: format!("{}-{}-{}", profile_name(profile), seed, k), files, opening, tags: json!({"profile": profile_name(profile)}), hdr: Vec::new() }
+    Case { id: format!("{}-{}-{}", profile_name(profile), seed, k), files, opening, tags: json!({"profile": profile_name(profile)}), hdr: Vec::new(), raw: Vec::new() }
 }
 
 pub fn profile_name(p: Profile) -> &'static str {
